@@ -26,6 +26,9 @@ RULE = ("square sparse systems of order 1..60 (quick: 1..40): SPD (Gram+shift), 
         "system; scaled-* = the random families with A*2^(+-60,120,200) and b*2^(0,+-100,+-sa); huge-budget = budget 10^6; history = executor kind it.seq: an "
         "operation on the matrix object (none, transpose twice, from_vecs, insert of the last entry, scale by 2, 1/2, -1, x.clone()) and then two solver calls on the "
         "same matrix and the same x (every ordered pair of entry points over the seeds; budgets 0, 1, 2, n/2, n, 3n+10), each call judged with the previous x as its guess. "
+        "extreme-scale = adversarial family of the RECORDED finding f64-square-range (5 systems per quick run, all five entry points): small SPD / strictly diagonally "
+        "dominant systems with b or A scaled by 2^+-(520..700) or a solution beyond the f64 range; a failure carries the key exactly when the INPUT has ||b||^2, the "
+        "square of an entry of b / x0 / A or a product A_ij x_j of the exact solution outside [2^-1022, 2^1024) (never for 'budget 0 but x was modified', never for a history). "
         "distinct = distinct executor line of an oracle case; non-trivial = order >= 2 and budget >= 1.")
 TRUSTED = ["Coq 8.16.1 kernel + vm_compute (primitive floats)", "Rust executor /verif/harness (kinds it.*)",
            "python driver: generators, exact-rational residual, numpy spectral norm / condition number, stream comparators",
@@ -36,6 +39,7 @@ ASSUMPTIONS = ["Rust semantics of Vec/usize/f64 as modelled; f64::powf(|x|, 2.0)
                "discharged here for a concrete CSC matrix over Qc and over R)"]
 UNPROVED = ["the rounding drift between the recurrence residual and the true residual IS proved in the standard rounding model for CG, BiCG and BiCGSTAB (residual_drift, ok_means_solved_rounded, run_sparse_ok_means_solved_rounded: per update 4[(||A|| + m|||A|||) X + ||b||] u, X the model's own ghost trace; ok_means_solved_oracle_allowance derives the oracle's allowance 64*(k+1)*2^-53*(||A||_2*X + ||b||)/||b||' from it when m|||A||| <~ 30||A||); NOT proved: the same for QMR (its second recurrence is multiplied by unbounded scalars: the allowance is heuristic there) and the transfer to binary64 (finiteness / underflow of every intermediate); the drift is real: residual_drift_is_real exhibits Ok(4) with recurrence residual 1.5e-23 and true relative residual 4.5e-7",
             "finiteness of x on Ok in f64 is searched, not proved",
+            "RECORDED finding f64-square-range (same mechanism as C15: Vector<f64>::norm_2 squares its entries without scaling): with ||b|| < 2^-511 the solvers take b for zero and answer Ok(0) with x untouched (true relative residual 1); with entries of A below 2^-511 and a solution beyond the f64 range CG / BiCG / BiCGSTAB answer Ok(1) with x = inf; the real-number theorems do not cover these runs (they are outside the range where the float operations approximate the real ones); witnesses corpus/C08/kf_scale_underflow.json, kf_scale_overflow.json",
             "over a field a division by zero is a panic of the model (the theorems are silent on such runs); in f64 it yields inf/NaN -- covered by tie + search"]
 
 MANIFEST = dict(
@@ -48,7 +52,9 @@ MANIFEST = dict(
           "run against the implementation on systems of order <= 12; an oracle with an exact-rational residual judges every Ok answer up to order 60. "
           "The search space includes structured matrices (identity .. empty main diagonal), joint power-of-two scaling of A and b, one-entry / equal-entry / -0.0 "
           "right-hand sides, guesses that are exact except in one component, non-finite guesses at budget 0, every budget 0..2n+3 on one system, and histories "
-          "(two calls on the same matrix object and the same x after an operation on the matrix: executor kind it.seq, oracle only)."),
+          "(two calls on the same matrix object and the same x after an operation on the matrix: executor kind it.seq, oracle only). "
+          "Right-hand sides / matrices scaled by 2^+-(520..700) are searched as well; the failures there are the recorded finding f64-square-range (norm_2 squares its entries), "
+          "keyed by the input alone."),
     note=("The drift of the residual recurrence is a theorem in the standard rounding model for CG, BiCG and BiCGSTAB (not QMR, not at binary64); on the implementation it is searched with the allowance "
           "64(k+1)eps(||A|| X + ||b||)/||b||', X taken from the float model's trace; finiteness of x is searched. The exact-arithmetic theorems treat a division by zero as a panic "
           "(the run returns nothing), where f64 produces inf/NaN (then no test can succeed: NaN <= tol is false)."),
@@ -121,6 +127,9 @@ def generate(rng, tier):
     for sv in SOLVERS:
         cases.extend(mk_cases(sv, s, 3, 1e-8, "empty", nontrivial=False, tie=True, want_trace=True))
     cases.extend(gen_special(rng.fork("c08-special"), tier))
+    # extreme scale (recorded finding f64-square-range): failures on these inputs carry the key, decided from the input
+    for (sv, s, mi, tol, kap, fam) in extreme_systems(rng.fork("c08-extreme"), tier, lambda n: 3 * n + 10):
+        cases.extend(mk_cases(sv, s, mi, tol, "extreme-scale", tie=False, want_trace=True))
     return finalize(cases, PID)
 
 # ----------------------------------------------------------------------------- special-values families (iterlib: structured catalogue)
@@ -316,6 +325,17 @@ def judge(case, s, a, tol, maxit):
         return ("Ok(%d) with true relative residual %.3e > tol %.1e + drift allowance %.3e (n=%d, ||A||=%.3g, largest iterate/update %.3g, ||b||=%.3g)"
                 % (a.k, res, tol, allow, n, spec_norm(s.dense()), X, nb))
     return None
+
+def finding_key(case, desc, decoded):
+    """`f64-square-range` exactly when the INPUT has ||b||^2, the square of an entry of b / x0 / A, or a product
+    A_ij * x_j of the exact solution outside the normal f64 range (iterlib.scale_out_of_range); decided from the input,
+    never from the failure.  Histories and rejected systems are never excused."""
+    m = case.meta
+    if m.get("role") == "seq" or m.get("bad") or "sys" not in m:
+        return None
+    if isinstance(desc, str) and desc.startswith("budget 0 but x was modified"):
+        return None          # no square is formed on the way to that failure: never excused (narrows the key, never widens it)
+    return KEY_SQUARE_RANGE if scale_out_of_range(Sys.from_json(m["sys"])) else None
 
 def prepare(tier):
     del iterlib.PENDING[:]
